@@ -13,7 +13,7 @@ CHECKS = {
                         "5-symbol alphabet, histories up to ~45 keys.",
              level_note="Trusts tm-db MemDB ordering, rapid and the 10-line view model. Parents are the real cachekv/iavl stores, so a defect of "
                         "those would also surface here. Nil keys and start > end are excluded (the stores assert / no caller)."),
-    "C03": c("storea", "TestC03", dict(checks=1500, steps=60, timeout=400), dict(checks=5000, steps=60, shards=14, timeout=1500),
+    "C03": c("storea", "TestC03", dict(checks=1000, steps=60, timeout=400), dict(checks=5000, steps=60, shards=14, timeout=1500),
              technique="stateful property-based testing (rapid state machine) of iavl.MutableTree against per-version map snapshots, "
                        "plus a shape invariant (AVL balance, height, leaf order) rebuilt from RenderShape",
              design_ref="DESIGN.md §7 C03",
